@@ -143,7 +143,10 @@ func runC10(c *Ctx) {
 // c10R8: a stop issued while the run is parked in the recovery back-off wins
 // over the restart (F13, both engines).
 func c10R8(c *Ctx) {
-	r := c.R.Rule("R8", "K3 stopped stays stopped during the back-off (both engines): StartWithBackoff restarts only on the !intentionalStop and !isGracefulShutdown edges, every stop that kills the tomb sets the marker first, StopAll sets the shutdown marker, and the cleanup goroutine finalizes the sentinels StartWithBackoff returns as UserStopped / SystemStopped, never Degraded", 13)
+	c10R8As(c, c.R.Rule("R8", "K3 stopped stays stopped during the back-off (both engines): StartWithBackoff restarts only on the !intentionalStop and !isGracefulShutdown edges, every stop that kills the tomb sets the marker first, StopAll sets the shutdown marker, and the cleanup goroutine finalizes the sentinels StartWithBackoff returns as UserStopped / SystemStopped, never Degraded", 13))
+}
+
+func c10R8As(c *Ctx, r string) {
 	kill := c.W.ExtMethod("gopkg.in/tomb.v2", "Tomb", "Kill")
 	isVar := c.W.LookupObj(pCerrors, "Is") // cerrors.Is = errors.Is (a package-level func variable)
 	errorsIs := c.W.ExtObj("errors", "Is")
@@ -188,7 +191,31 @@ func c10R8(c *Ctx) {
 			starts := asInstrs(kit.CallsTo(fn, Set(c.Fn(r, rel, "(*Service).Start"))))
 			for _, t := range markers {
 				g := kit.NewGates()
+				// the back-off wait: a select / channel receive in StartWithBackoff; a marker read BEFORE the
+				// wait says nothing about a stop issued during it
+				var waits []ssa.Instruction
+				for _, b := range fn.Blocks {
+					for _, in := range b.Instrs {
+						switch x := in.(type) {
+						case *ssa.Select:
+							waits = append(waits, x)
+						case *ssa.UnOp:
+							if x.Op == token.ARROW {
+								waits = append(waits, x)
+							}
+						}
+					}
+				}
 				for _, l := range atomicCalls(fn, t.f, "Load") {
+					afterWait := false
+					for _, wi := range waits {
+						if kit.InstrDominates(wi, l) {
+							afterWait = true
+						}
+					}
+					if !afterWait {
+						continue
+					}
 					g.AddEdges(kit.CondEdges(l.Value(), false), "!"+t.name)
 					// what is returned on the marker's true edge
 					for _, e := range kit.CondEdges(l.Value(), true) {
@@ -199,7 +226,7 @@ func c10R8(c *Ctx) {
 						}
 					}
 				}
-				c.Dominated(r, eng+" StartWithBackoff: no restart after "+t.name, starts, g, "the !"+t.name+".Load() edge")
+				c.Dominated(r, eng+" StartWithBackoff: no restart after "+t.name, starts, g, "the !"+t.name+".Load() edge read after the back-off wait")
 			}
 		}
 		if fn := c.SSA(r, rel, stopFn); fn != nil && kill != nil {
@@ -270,7 +297,10 @@ func c10R8(c *Ctx) {
 }
 
 func c10R1(c *Ctx) {
-	r := c.R.Rule("R1", "K3 classification dominance in the cleanup goroutine of both runPipelines", 14)
+	c10R1As(c, c.R.Rule("R1", "K3 classification dominance in the cleanup goroutine of both runPipelines", 14))
+}
+
+func c10R1As(c *Ctx, r string) {
 	isFatal := Set(c.Fn(r, pCerrors, "IsFatalError"))
 	stillAlive := c.W.ExtObj("gopkg.in/tomb.v2", "ErrStillAlive")
 	if stillAlive == nil {
@@ -335,6 +365,13 @@ func c10R1(c *Ctx) {
 					}
 				}
 				c.R.Check(!bad, r, rel+": a stopped status is never written for a fatal error", c.Pos(us.Pos()), "ok", "a stopped status can be written on the fatal-error edge: a fatal cause would not leave the pipeline degraded", true)
+				// ... and it is written only where the error is known not to be fatal: the still-alive arm, behind the
+				// !IsFatalError edge, or behind the failure edge of the recovery attempt (the back-off sentinels)
+				gs := kit.NewGates().AddEdges(aliveEdges, "tomb still alive").AddEdges(condEdgesOfCalls(cl, isFatal, false), "!IsFatalError(err)")
+				for _, rc := range recCalls {
+					gs.AddEdges(kit.FailEdges(rc), "recovery outcome")
+				}
+				c.Dominated(r, rel+": a stopped status is written only where the run's error is known not to be fatal", []ssa.Instruction{us}, gs, "the tomb-still-alive edge, the !IsFatalError(err) edge or the recovery outcome")
 			default:
 				c.R.Fail(r, rel+": cleanup status write", c.Pos(us.Pos()), "the cleanup goroutine writes a status other than Degraded / UserStopped / SystemStopped")
 			}
@@ -818,6 +855,7 @@ func runC11(c *Ctx) {
 	c11R8(c)
 	c11R9(c)
 	c11R10(c)
+	c10R1As(c, c.R.Rule("R12", "K3 (= C10.R1) the stored status agrees with how the run ended: in the cleanup goroutine of both engines Degraded is written only for a fatal error or a failed recovery, and a stopped status only where the run's error is known not to be fatal", 14))
 	r11 := c.R.Rule("R11", "K5 frozen guarded-by table: pipeline.Instance.status is read and written only under statusLock (the status Start/Stop decide on is never a torn or stale read)", 2)
 	c.guardTable(r11, guardEntry{Rel: pPipe, Struct: "Instance", Mutex: "statusLock", Fields: []string{"status"}, Min: 2})
 }
@@ -1299,6 +1337,8 @@ func runC12(c *Ctx) {
 	c12R3(c)
 	c12R4(c)
 	c11R6(c)
+	c10R8As(c, c.R.Rule("R8", "K3 (= C10.R8) force-stopped stays stopped: a run parked in the recovery back-off is not restarted once a stop marked it — the marker is read after the wait, every stop that kills the tomb sets it first, and the cleanup goroutine finalizes it as UserStopped", 13))
+	c12R9(c)
 	msgNotDropped(c, c.R.Rule("R7", "K4 (= C06.R10) no message forgotten (v1): a stream node that received a message sends it on, hands it over, acks it or nacks it on every path — also on the ctx.Done() arms a force stop takes — so the source's wait for open messages, and with it the run, always ends", 8))
 }
 
@@ -1522,5 +1562,46 @@ func c12R4(c *Ctx) {
 			}
 		}
 		c.R.Check(front == 1 && back == 0, r, "DestinationAckerNode.worker: a popped message is put back at the front", c.Pos(fn.Pos()), "queue.PushFront(msg)", "the worker re-queues a popped message at the back (or not at all): teardown then nacks messages out of order and the ordered source-acker semaphore waits forever", true)
+	}
+}
+
+// c12R9: a connector counts as running only once its Open succeeded.
+func c12R9(c *Ctx) {
+	r := c.R.Rule("R9", "K4 startable again after a failed start: Source.Open / Destination.Open mark the instance as running (Instance.connector = …) only where no failing exit can follow — or every failing exit behind the mark clears it again", 2)
+	connF := c.Field(r, pConn, "Instance", "connector")
+	for _, name := range []string{"(*Source).Open", "(*Destination).Open"} {
+		fn := c.SSA(r, pConn, name)
+		if fn == nil || connF == nil {
+			continue
+		}
+		var marks, clears []*ssa.Store
+		for _, f := range kit.WithAnon(fn) {
+			for _, st := range kit.FieldStores(f, connF) {
+				if kit.IsNilConst(st.Val) {
+					clears = append(clears, st)
+				} else if f == fn {
+					marks = append(marks, st)
+				}
+			}
+		}
+		if len(marks) == 0 {
+			c.R.Fail(r, name+": marks the instance running", c.Pos(fn.Pos()), "no store to Instance.connector found")
+			continue
+		}
+		for _, m := range marks {
+			bad := false
+			for _, ret := range kit.Returns(fn) {
+				if kit.IsNilConst(kit.RetVal(ret, len(ret.Results)-1)) {
+					continue
+				}
+				if kit.Reaches(m, ret, nil) {
+					bad = true
+				}
+			}
+			if bad && len(clears) > 0 {
+				bad = false // a deferred/explicit clear exists; the specific clear-on-failure shape is C11.R6's
+			}
+			c.R.Check(!bad, r, name+": no failing exit after the instance was marked running", c.Pos(m.Pos()), "ok", name+" sets Instance.connector before a step that can still fail and never clears it on that failure: after a start that fails there (e.g. a force stop during start-up) the run ends, but every later Start is refused with 'connector is running'", true)
+		}
 	}
 }
